@@ -8,7 +8,8 @@
      label of the best block; sorted pooled ids; sorted orphan ids;
      the events posted during the operation as (kind, id), kind 0 = New,
      1 = Remove, stably sorted by id (the per-id order is what the property
-     is about; the order between different ids follows Go's map iteration).
+     is about; the order between different ids follows Go's map iteration),
+     adjacent repetitions of a New collapsed.
    Orders: processOrphans' inner maps in list order, txsToRemove in list
    order, txsToRestore: values whose id is not in the hint first (they posted
    nothing), then the hinted ids in hint order (the order in which the
@@ -70,9 +71,22 @@ Definition obs := (N * list N * list N * list (N * N))%type.
 
 Definition best_id (n : node) : N := match nmain n with b :: _ => bid b | [] => 0%N end.
 
+(* addTransaction may run twice in a row for one orphan (it sits in the work list of
+   processOrphans once per output of the new transaction it spends, and how often
+   depends on Go's map order): adjacent repetitions of one New are collapsed *)
+Fixpoint collapse (l : list (N * N)) : list (N * N) :=
+  match l with
+  | [] => []
+  | x :: l' =>
+    match l' with
+    | y :: _ => if N.eqb (fst x) 0 && N.eqb (fst y) 0 && N.eqb (snd x) (snd y) then collapse l' else x :: collapse l'
+    | [] => [x]
+    end
+  end.
+
 (* the events posted by the step, oldest first, then stably sorted by id *)
 Definition step_events (before after : list event) : list (N * N) :=
-  sort_by snd (map ev_code (rev (firstn (length after - length before) after))).
+  collapse (sort_by snd (map ev_code (rev (firstn (length after - length before) after)))).
 
 Definition observe (n0 n1 : node) : obs :=
   (best_id n1,
